@@ -10,8 +10,8 @@
 (***************************************************************************)
 EXTENDS Engine, Json
 CONSTANTS MaxDepth, MaxRows, MaxIdx
-VARIABLES st, hist
-vars == <<st, hist>>
+VARIABLES st, hist, base
+vars == <<st, hist, base>>
 
 Setup == << CreateTable("T1", << ColDef("A", "INTEGER"), ColDef("B", "VARCHAR(10)") >>) >>
 RECURSIVE Run(_,_)
@@ -50,10 +50,17 @@ Enabled(s, a) ==
    /\ (a.a \in {"rollback", "commit"} => s.txn.active)
    /\ (a.a = "begin" => ~s.txn.active)
 
-Init == st = Run(InitSt, Setup) /\ hist = Setup
-Next == \E a \in Alphabet : Enabled(st, a) /\ st' = Apply(st, a).st /\ hist' = Append(hist, a)
+\* populated starting points (the depth bound counts the actions after them): three rows of which the LATER ones share a key,
+\* under a single-column index - index maintenance that depends on the order of row positions inside one key needs exactly
+\* this shape plus one or two updates - and two rows with a NULL key under a two-column index
+R1(a, b) == InsertV("T1", << <<a, b>> >>)
+Prefixes == { <<>>,
+              << R1(I(0), S("a")), R1(I(1), S("ab")), R1(I(1), S("a")), CreateIdx("I1", <<IdxCol("A", "asc", 0)>>, FALSE) >>,
+              << R1(I(2), S("ab")), R1(NULL, S("a")), CreateIdx("I3", <<IdxCol("A", "asc", 0), IdxCol("B", "asc", 0)>>, FALSE) >> }
+Init == \E pre \in Prefixes : st = Run(InitSt, Setup \o pre) /\ hist = Setup \o pre /\ base = Len(Setup \o pre)
+Next == \E a \in Alphabet : Enabled(st, a) /\ st' = Apply(st, a).st /\ hist' = Append(hist, a) /\ base' = base
 View == st
-Bound == Len(hist) <= MaxDepth + Len(Setup)
+Bound == Len(hist) <= MaxDepth + base
 \* emit the histories that end in a state change or an index operation (the probes observe the resulting state)
 Emit == PrintT(<<"REPLAY", ToJson(hist')>>)
 Inv == ConstraintsHold(st)
